@@ -10,6 +10,12 @@ import (
 
 func (r *Run) convert(from, to types.Type, v Value, site Site) Value {
 	fu, tu := from.Underlying(), to.Underlying()
+	// unsafe.Pointer <-> uintptr round trips (abi.NoEscape): the pointer value is carried through opaquely
+	if pv, ok := v.(*PtrV); ok {
+		if tb, ok := tu.(*types.Basic); ok && (tb.Kind() == types.Uintptr || tb.Kind() == types.UnsafePointer) {
+			return pv
+		}
+	}
 	if tb, ok := tu.(*types.Basic); ok {
 		if tb.Info()&types.IsInteger != 0 {
 			if fb, ok := fu.(*types.Basic); ok && fb.Info()&types.IsInteger != 0 {
@@ -46,16 +52,14 @@ func (r *Run) convert(from, to types.Type, v Value, site Site) Value {
 				// []rune -> string: encode each rune (concretise when symbolic is too hard: use UTF-8 encode with ite on ranges only for consts)
 				s := &StrV{}
 				for i := 0; i < f.len; i++ {
-					rt := elemsOf(f)[f.off+i].(*Term)
-					rv := r.concretise(rt, "rune->string at "+site.String())
-					for _, c := range []byte(string(rune(rv))) {
-						s.b = append(s.b, BVu(uint64(c), 8))
-					}
+					s.b = append(s.b, r.encodeRune(elemsOf(f)[f.off+i].(*Term))...)
 				}
 				return s
 			case *Term: // integer -> string
-				rv := r.concretise(f, "int->string at "+site.String())
-				return concStr(string(rune(rv)))
+				if f.IsConst() {
+					return concStr(string(rune(f.Int())))
+				}
+				return &StrV{b: r.encodeRune(Extract(SExtOrTrunc(f, 64), 31, 0))}
 			}
 		}
 		if tb.Kind() == types.UnsafePointer {
@@ -75,7 +79,21 @@ func (r *Run) convert(from, to types.Type, v Value, site Site) Value {
 				}
 				return sl
 			}
-			endPath("engine", "string -> []rune unsupported")
+			// string -> []rune: decode with the same decision tree as range over a string
+			it := &iterV{str: s}
+			var rs []*Term
+			for {
+				nx := r.rangeNext(it, true, site).(TupleV)
+				if nx[0].(*Term).IsFalse() {
+					break
+				}
+				rs = append(rs, nx[2].(*Term))
+			}
+			sl := r.makeSlice(ts.Elem(), len(rs), len(rs))
+			for i, t := range rs {
+				elemsOf(sl)[i] = t
+			}
+			return sl
 		}
 	}
 	if _, ok := tu.(*types.Pointer); ok {
@@ -113,6 +131,11 @@ func (r *Run) typeAssert(x *ssa.TypeAssert, iv *IfaceV, site Site) Value {
 // ---- binop ----------------------------------------------------------------------------------
 
 func (r *Run) binop(op token.Token, xt types.Type, a, b Value, yt types.Type, site Site) Value {
+	if pv, ok := a.(*PtrV); ok && op == token.XOR {
+		if c, ok := b.(*Term); ok && c.isZero() {
+			return pv // uintptr(p) ^ 0 (abi.NoEscape)
+		}
+	}
 	switch x := a.(type) {
 	case *Term:
 		y := b.(*Term)
@@ -343,4 +366,42 @@ func (r *Run) valEq(a, b Value, site Site) *Term {
 	}
 	endPath("engine", "valEq on %T at %s", a, site)
 	return nil
+}
+
+func SExtOrTrunc(t *Term, w int) *Term {
+	if t.w >= w {
+		return Extract(t, w-1, 0)
+	}
+	return SExt(t, w)
+}
+
+// encodeRune: UTF-8 encoding of a (32-bit) rune term; symbolic runes are case-split on the encoding length.
+func (r *Run) encodeRune(rt *Term) []*Term {
+	if rt.IsConst() {
+		var out []*Term
+		for _, c := range []byte(string(rune(rt.Int()))) {
+			out = append(out, BVu(uint64(c), 8))
+		}
+		return out
+	}
+	v := rt
+	if v.w != 32 {
+		v = SExtOrTrunc(v, 32)
+	}
+	c := func(x uint64) *Term { return BVu(x, 32) }
+	b8 := func(t *Term) *Term { return Extract(t, 7, 0) }
+	bad := []*Term{BVu(0xEF, 8), BVu(0xBF, 8), BVu(0xBD, 8)}
+	switch {
+	case r.branch(ULt(v, c(0x80))):
+		return []*Term{b8(v)}
+	case r.branch(ULt(v, c(0x800))):
+		return []*Term{b8(BOr(c(0xC0), LShr(v, c(6)))), b8(BOr(c(0x80), BAnd(v, c(0x3F))))}
+	case r.branch(And(ULe(c(0xD800), v), ULe(v, c(0xDFFF)))):
+		return bad
+	case r.branch(ULt(v, c(0x10000))):
+		return []*Term{b8(BOr(c(0xE0), LShr(v, c(12)))), b8(BOr(c(0x80), BAnd(LShr(v, c(6)), c(0x3F)))), b8(BOr(c(0x80), BAnd(v, c(0x3F))))}
+	case r.branch(ULe(v, c(0x10FFFF))):
+		return []*Term{b8(BOr(c(0xF0), LShr(v, c(18)))), b8(BOr(c(0x80), BAnd(LShr(v, c(12)), c(0x3F)))), b8(BOr(c(0x80), BAnd(LShr(v, c(6)), c(0x3F)))), b8(BOr(c(0x80), BAnd(v, c(0x3F))))}
+	}
+	return bad
 }
